@@ -294,6 +294,26 @@ def dispatch_rule(ctx, facts, cfg):
             ctx.instance(rid, 'entry %s returns the value of %s unchanged' % (fld, want['returns_call']), ok=okv, site=f['at'])
             if not okv:
                 ctx.violation(rid, fn, 'return-value', 'entry `%s` must return the value of %s unchanged; its result comes from %s' % (fld, want['returns_call'], rets), site=f['at'], config=cfg)
+    # the iteration entries walk exactly like the native walk of their section: started by into_iter_<section>() and advanced by next();
+    # the OPT-including variants (into_iter_additional_including_opt / next_including_opt) belong to the re-emitters, not to the facade
+    walks = 0
+    for key, g in sorted(facts.fns.items()):
+        if not key.startswith('c_abi::iter_'):
+            continue
+        for bi, b in F.blocks(g):
+            t = b['term']
+            if t['k'] != 'call':
+                continue
+            p_ = (F.call_path(t) or '')
+            tp_ = (F.call_trait_path(t) or '')
+            if p_.endswith('::next') or tp_.endswith('DNSIterable::next') or p_.endswith('DNSIterable>::next'):
+                walks += 1
+                ctx.instance(rid, '%s advances with next()' % key.split('::')[-1], ok=True, site=t.get('at'))
+            if p_.endswith('next_including_opt') or p_.endswith('into_iter_additional_including_opt'):
+                ctx.violation(rid, key, 'walk-includes-opt', 'the table entry `%s` walks with %s: the callback is handed the OPT pseudo-record, which the native walk of the section never yields'
+                              % (key.split('::')[-1], p_.split('::')[-1]), site=t.get('at'), config=cfg)
+    if walks < 4:
+        ctx.violation(rid, '<floor>', 'iteration entries', 'found %d next() advances in the iteration entries, expected at least 4' % walks, kind='below-floor')
     if n < 29:
         ctx.violation(rid, '<floor>', 'slots', 'only %d function slots found in fn_table(), expected 29' % n, kind='below-floor')
 
